@@ -1,0 +1,218 @@
+/*
+ * Verification hooks. Compiled only with `--cfg grex_verif`; never part of a normal build.
+ *
+ * A thread-local recorder collects read-only snapshots of the artefacts the build pipeline
+ * produces (preprocessed test cases, grapheme clusters, automata, expressions, self-check
+ * outcome). A verification harness calls `start()`, runs `RegExpBuilder::build()` on the same
+ * thread and fetches the events with `take()`. One choice point (`pick`) lets the harness
+ * select which member of an equivalence class represents it when the minimised automaton is
+ * rebuilt; without a schedule the code's own choice is kept.
+ */
+
+use crate::cluster::GraphemeCluster;
+use crate::dfa::Dfa;
+use crate::expression::Expression;
+use crate::grapheme::Grapheme;
+use crate::quantifier::Quantifier;
+use petgraph::visit::EdgeRef;
+use std::cell::RefCell;
+
+#[derive(Clone, Debug, PartialEq, Eq)]
+pub struct VGrapheme {
+    pub chars: Vec<String>,
+    pub min: u32,
+    pub max: u32,
+    pub repetitions: Vec<VGrapheme>,
+}
+
+#[derive(Clone, Debug, PartialEq, Eq)]
+pub struct VGraph {
+    pub start: usize,
+    pub finals: Vec<usize>,
+    pub nodes: Vec<usize>,
+    /// (source, target, label); grouped by source in node order, per source in the order
+    /// in which the graph library enumerates the outgoing edges
+    pub edges: Vec<(usize, usize, VGrapheme)>,
+    /// states in the depth-first order used by the state-elimination step
+    pub dfs_order: Vec<usize>,
+}
+
+#[derive(Clone, Debug, PartialEq, Eq)]
+pub enum VExpr {
+    Alternation(Vec<VExpr>),
+    CharacterClass(Vec<char>),
+    Concatenation(Box<VExpr>, Box<VExpr>),
+    Literal(Vec<VGrapheme>),
+    Repetition(Box<VExpr>, char),
+}
+
+#[derive(Clone, Debug, PartialEq, Eq)]
+pub enum Event {
+    /// test cases after case folding, sorting and deduplication
+    Pre(Vec<String>),
+    /// phase 0: after segmentation, 1: after class conversion, 2: after repetition conversion
+    Clusters(u8, Vec<Vec<VGrapheme>>),
+    /// automaton after inserting all clusters, before minimisation
+    Trie(VGraph),
+    /// automaton after minimisation (only emitted when minimisation was requested)
+    Min(VGraph),
+    /// an existing edge label was widened to a range during insertion
+    Widen {
+        state: usize,
+        value: String,
+        old: (u32, u32),
+        new: (u32, u32),
+    },
+    /// result of one state-elimination run
+    Expr(VExpr),
+    /// outcome of the "does every test case still match" self-check:
+    /// stage 1 = minimised automaton (after rotations), stage 2 = un-minimised automaton
+    SelfCheck { stage: u8, ok: bool },
+    /// plain alternation of all test cases used as last resort
+    FallbackAlternation,
+    /// the expression that is finally printed
+    Final(VExpr),
+}
+
+struct Recorder {
+    events: Vec<Event>,
+    schedule: Option<Vec<usize>>,
+    next_choice: usize,
+    class_sizes: Vec<usize>,
+}
+
+thread_local! {
+    static RECORDER: RefCell<Option<Recorder>> = const { RefCell::new(None) };
+}
+
+/// Starts recording on the current thread. `schedule` optionally fixes, for the k-th
+/// equivalence class with more than one member, which member (index into the members sorted by
+/// state index, taken modulo the class size) represents it.
+pub fn start(schedule: Option<Vec<usize>>) {
+    RECORDER.with(|r| {
+        *r.borrow_mut() = Some(Recorder {
+            events: vec![],
+            schedule,
+            next_choice: 0,
+            class_sizes: vec![],
+        })
+    });
+}
+
+/// Stops recording and returns the events plus the sizes of the multi-member equivalence
+/// classes seen at the choice point (so that a harness can enumerate all schedules).
+pub fn take() -> (Vec<Event>, Vec<usize>) {
+    RECORDER.with(|r| match r.borrow_mut().take() {
+        Some(rec) => (rec.events, rec.class_sizes),
+        None => (vec![], vec![]),
+    })
+}
+
+pub(crate) fn emit(event: Event) {
+    RECORDER.with(|r| {
+        if let Some(rec) = r.borrow_mut().as_mut() {
+            rec.events.push(event);
+        }
+    });
+}
+
+pub(crate) fn is_recording() -> bool {
+    RECORDER.with(|r| r.borrow().is_some())
+}
+
+/// Choice point: which member of an equivalence class is its representative.
+pub(crate) fn pick<T: Copy + Ord>(members: impl Iterator<Item = T>, default: T) -> T {
+    RECORDER.with(|r| {
+        let mut guard = r.borrow_mut();
+        let rec = match guard.as_mut() {
+            Some(rec) => rec,
+            None => return default,
+        };
+        let mut sorted: Vec<T> = members.collect();
+        if sorted.len() < 2 {
+            return default;
+        }
+        sorted.sort();
+        rec.class_sizes.push(sorted.len());
+        let k = rec.next_choice;
+        rec.next_choice += 1;
+        match &rec.schedule {
+            Some(schedule) if k < schedule.len() => sorted[schedule[k] % sorted.len()],
+            Some(_) => sorted[0],
+            None => default,
+        }
+    })
+}
+
+pub(crate) fn grapheme(g: &Grapheme) -> VGrapheme {
+    VGrapheme {
+        chars: g.chars().clone(),
+        min: g.minimum(),
+        max: g.maximum(),
+        repetitions: g.repetitions.iter().map(grapheme).collect(),
+    }
+}
+
+pub(crate) fn clusters(phase: u8, clusters: &[GraphemeCluster]) {
+    if !is_recording() {
+        return;
+    }
+    emit(Event::Clusters(
+        phase,
+        clusters
+            .iter()
+            .map(|c| c.graphemes().iter().map(grapheme).collect())
+            .collect(),
+    ));
+}
+
+pub(crate) fn graph(dfa: &Dfa) -> VGraph {
+    let states = dfa.verif_states();
+    let mut finals = vec![];
+    let mut edges = vec![];
+    for &state in states.iter() {
+        if dfa.is_final_state(state) {
+            finals.push(state.index());
+        }
+        for edge in dfa.outgoing_edges(state) {
+            edges.push((
+                state.index(),
+                edge.target().index(),
+                grapheme(edge.weight()),
+            ));
+        }
+    }
+    VGraph {
+        start: dfa.verif_initial_state().index(),
+        finals,
+        nodes: states.iter().map(|s| s.index()).collect(),
+        edges,
+        dfs_order: dfa
+            .states_in_depth_first_order()
+            .iter()
+            .map(|s| s.index())
+            .collect(),
+    }
+}
+
+pub(crate) fn expression(e: &Expression) -> VExpr {
+    match e {
+        Expression::Alternation(options, _, _, _) => {
+            VExpr::Alternation(options.iter().map(expression).collect())
+        }
+        Expression::CharacterClass(set, _) => VExpr::CharacterClass(set.iter().copied().collect()),
+        Expression::Concatenation(a, b, _, _, _) => {
+            VExpr::Concatenation(Box::new(expression(a)), Box::new(expression(b)))
+        }
+        Expression::Literal(cluster, _, _) => {
+            VExpr::Literal(cluster.graphemes().iter().map(grapheme).collect())
+        }
+        Expression::Repetition(inner, quantifier, _, _, _) => VExpr::Repetition(
+            Box::new(expression(inner)),
+            match quantifier {
+                Quantifier::KleeneStar => '*',
+                Quantifier::QuestionMark => '?',
+            },
+        ),
+    }
+}
